@@ -78,6 +78,34 @@ Definition wake_discipline (cls : string) (members : list (string * mkind)) (met
   negb (match conds with [] => true | _ => false end) &&
   forallb (fun m => negb (is_public cls (fst m)) || wake_ok members reads conds (snd m)) methods.
 
+(* one notification PER push: after every push on the container and before the next one (or the end of the method) the
+   condition variable the consumers wait on is notified -- with the lock still held or after it has been released, both
+   are fine because a waiter registers atomically with releasing the lock.  (The IR is straight-line and the translator
+   refuses a notification under an if/for/while: Gen.CxxSync.notifications_unconditional.) *)
+Fixpoint notify_before_next_push (c : string) (l : list cop) : bool :=
+  match l with
+  | [] => false
+  | PushBack :: _ => false
+  | NotifyOne c' :: r => String.eqb c c' || notify_before_next_push c r
+  | NotifyAll c' :: r => String.eqb c c' || notify_before_next_push c r
+  | _ :: r => notify_before_next_push c r
+  end.
+
+Fixpoint push_notify_ok (conds : list string) (l : list cop) : bool :=
+  match l with
+  | [] => true
+  | PushBack :: r => forallb (fun c => notify_before_next_push c r) conds && push_notify_ok conds r
+  | _ :: r => push_notify_ok conds r
+  end.
+
+Definition pushes_in (l : list cop) : nat := length (filter (fun o => match o with PushBack => true | _ => false end) l).
+
+Definition notify_per_push (methods : list (string * list cop)) : bool :=
+  let conds := flat_map (fun m => wait_conds (snd m)) methods in
+  negb (match conds with [] => true | _ => false end) &&
+  negb (Nat.eqb (fold_right (fun m n => pushes_in (snd m) + n) 0 methods) 0) &&
+  forallb (fun m => push_notify_ok conds (snd m)) methods.
+
 (* ---------------------------------------------------------------- LTS *)
 Inductive wpc := WLoop | WWait | WGot (i : N) | WHandling (i : N) | WDone.
 Inductive dpc := DAlive | DFlagSet | DJoin (k : nat) | DJoined.   (* DJoin k: woken, the first k workers joined *)
